@@ -41,6 +41,7 @@ type taskInfo struct {
 	rpc   int
 	calls int // storage calls made so far by this task
 	per   map[string]int
+	rec   *RPCRecord
 }
 
 // crashPanic is the sentinel panic that models the death of the server
@@ -180,6 +181,7 @@ type World struct {
 	RPCs     []*RPCRecord
 	keepRPCs bool
 	curCli   int
+	simIDs   int // identifiers handed out in place of process-random ones (step-level engine)
 
 	Projects []*types.Project
 
@@ -190,12 +192,16 @@ type World struct {
 	// ActorNames maps every actor id ever handed out to "c<slot>" / "c<slot>.<gen>".
 	ActorNames map[string]string
 
-	Raw    *rawWorld
-	CS     *csState
-	Stats  *Stats
-	Log    []string
-	ctx    context.Context
-	cancel context.CancelFunc
+	Sched          *Sched // non-nil inside a parallel section (step-level engine)
+	LastSchedTrace []string
+	stepIndex      int
+	PS             *psState
+	Raw            *rawWorld
+	CS             *csState
+	Stats          *Stats
+	Log            []string
+	ctx            context.Context
+	cancel         context.CancelFunc
 
 	observers []func(ev DBEvent)
 	wireTaps  []func(ev *WireEvent)
@@ -418,6 +424,20 @@ func (w *World) roundTrip(req *http.Request) (*http.Response, error) {
 		body = b
 	}
 	ctx := req.Context()
+	if s := w.Sched; s != nil {
+		var t *SchedTask
+		if v, ok := ctx.Value(ctxSchedKey{}).(*SchedTask); ok {
+			t = v
+		} else if name := bgTaskName(ctx); name != "" {
+			s.mu.Lock()
+			t = s.bgByName[name]
+			s.mu.Unlock()
+		}
+		if t != nil {
+			undo := s.bind(t)
+			defer undo()
+		}
+	}
 	ti, _ := ctx.Value(taskKey).(*taskInfo)
 	top := false
 	if ti == nil {
@@ -437,15 +457,26 @@ func (w *World) roundTrip(req *http.Request) (*http.Response, error) {
 	}
 
 	rec := &RPCRecord{N: ti.rpc, Proc: procOf(req.URL.Path), Client: w.curCli}
+	if c, ok := ctx.Value(ctxClientKey{}).(int); ok {
+		rec.Client = c
+	}
 	if w.keepRPCs {
 		rec.ReqBody = body
 	}
-	w.curRPC = rec
+	ti.rec = rec
+	w.mu.Lock()
 	w.RPCs = append(w.RPCs, rec)
-	defer func() { w.curRPC = nil }()
+	w.mu.Unlock()
+	if w.Sched == nil {
+		w.curRPC = rec
+		defer func() { w.curRPC = nil }()
+	}
 
-	nf := w.netPlan
-	w.netPlan = nil
+	var nf *NetFault
+	if w.Sched == nil {
+		nf = w.netPlan
+		w.netPlan = nil
+	}
 	if nf != nil {
 		rec.Fault = nf.Kind
 		if nf.Kind == "hold" || nf.Kind == "hold_only" {
@@ -461,6 +492,36 @@ func (w *World) roundTrip(req *http.Request) (*http.Response, error) {
 			rec.Err = ErrNetDropped.Error()
 			return nil, ErrNetDropped
 		}
+	}
+	if s := w.Sched; s != nil && ctx.Value(ctxDupKey{}) != nil {
+		// message duplication with both copies in flight: the copy is a task of its
+		// own, its response goes nowhere
+		w.rpcSeq++
+		dti := &taskInfo{name: fmt.Sprintf("rpc%d", w.rpcSeq), fg: true, rpc: w.rpcSeq}
+		drec := &RPCRecord{N: dti.rpc, Proc: rec.Proc, Client: rec.Client, Fault: "concurrent_duplicate"}
+		dti.rec = drec
+		w.mu.Lock()
+		w.RPCs = append(w.RPCs, drec)
+		w.mu.Unlock()
+		w.fault("net_concurrent_duplicate")
+		dctx := context.WithValue(w.ctx, taskKey, dti)
+		method, url, hdr, dbody := req.Method, req.URL.String(), req.Header.Clone(), append([]byte(nil), body...)
+		s.Spawn(fmt.Sprintf("dup%d", dti.rpc), func() {
+			resp, rb, err := w.deliver(dctx, method, url, hdr, dbody)
+			if err != nil {
+				drec.Err = err.Error()
+				return
+			}
+			drec.Status = resp.StatusCode
+			if len(w.wireTaps) > 0 {
+				if ev := decodeWire(drec, hdr, dbody, resp.StatusCode, resp.Header, rb); ev != nil {
+					ev.Stale, ev.Lost = true, true
+					for _, o := range w.wireTaps {
+						o(ev)
+					}
+				}
+			}
+		})
 	}
 	resp, respBody, err := w.deliver(ctx, req.Method, req.URL.String(), req.Header, body)
 	if err != nil {
@@ -632,8 +693,8 @@ func (h *dbHooks) Before(ctx context.Context, method string, args []any) (int, e
 	}
 	nth := ti.per[method]
 	ti.per[method]++
-	if ti.fg && w.curRPC != nil && ti.rpc == w.curRPC.N {
-		w.curRPC.Calls = append(w.curRPC.Calls, method)
+	if ti.fg && ti.rec != nil {
+		ti.rec.Calls = append(ti.rec.Calls, method)
 	}
 	var f *DBFault
 	for i, p := range w.dbPlan {
@@ -644,6 +705,24 @@ func (h *dbHooks) Before(ctx context.Context, method string, args []any) (int, e
 			}
 			break
 		}
+	}
+	if s := w.Sched; s != nil {
+		// step-level engine: every storage call of every task is a yield point
+		w.mu.Unlock()
+		if !ti.fg {
+			if name := bgTaskName(ctx); name != "" {
+				if t := s.taskOfGoroutine(true); t != nil {
+					s.mu.Lock()
+					s.bgByName[name] = t
+					s.mu.Unlock()
+				}
+			}
+		}
+		s.YieldHere("db:"+method, nil)
+		if h.g.dead {
+			return 0, errDeadGen
+		}
+		return idx, nil
 	}
 	park := false
 	if !ti.fg && !w.Cfg.NoParking {
@@ -687,8 +766,8 @@ func (w *World) noteDBFault(method, mode string, ti *taskInfo) {
 	w.mu.Lock()
 	defer w.mu.Unlock()
 	w.Stats.Faults["db_"+mode]++
-	if ti.fg && w.curRPC != nil {
-		w.curRPC.DBFault = fmt.Sprintf("%s@%s", mode, method)
+	if ti.fg && ti.rec != nil {
+		ti.rec.DBFault = fmt.Sprintf("%s@%s", mode, method)
 	}
 	w.Stats.Probes["dbfault:"+mode+"@"+method]++
 }
@@ -806,6 +885,10 @@ func (w *World) DrainBackground() int {
 // parked background task holds, or on a timer) the scheduler first lets the
 // background tasks run and then advances simulated time.
 func (w *World) RunFG(f func()) (hung bool) {
+	if w.Sched != nil {
+		f() // already on a task goroutine of the step-level scheduler
+		return false
+	}
 	done := make(chan struct{})
 	var pv any
 	go func() {
